@@ -190,13 +190,11 @@ def contracts(rep, regs, model):
             struct = ast.literal_eval(n.value.args[0])
     if struct is None:
         raise AnalysisError('stdnum/iban.py: _struct_re vanished')
-    fn = func(itree, '_struct_to_re', 'stdnum/iban.py')
-    conv_keys = None
-    for n in ast.walk(fn):
-        if isinstance(n, ast.Dict) and all(isinstance(k, ast.Constant) for k in n.keys):
-            conv_keys = set(k.value for k in n.keys)
-    if conv_keys is None:
-        raise AnalysisError('stdnum/iban.py: conversion table of _struct_to_re vanished')
+    # the structure letters iban._struct_to_re() can convert (its expressions evaluated on 1!<letter>, see sa/strabs/interp.py)
+    from ..strabs.run import get_interp
+    conv_keys = set(get_interp().iban_letters)
+    if not conv_keys:
+        raise AnalysisError('stdnum/iban.py: _struct_to_re() converts no structure letter the evaluator can follow')
     sre = re.compile(struct)
     whole = re.compile(r'^(?:%s)+$' % struct)
 
